@@ -1,4 +1,5 @@
 import Yaql.Gen.Registry
+import Yaql.Gen.LazySpell
 /-!
 C11 over the generated registry: the functions whose operands the evaluation-order model
 (`Yaql.EvalOrder`) treats as lazy have exactly those lazy parameters in the live library, and no
@@ -6,7 +7,7 @@ other registered function has a lazy parameter besides the listed ones (all othe
 Re-proved by the kernel on every run against the regenerated table.
 -/
 namespace Yaql.Props.C11Gen
-open Yaql.Registry Yaql.Gen.Registry Yaql.Types
+open Yaql.Registry Yaql.Gen.Registry Yaql.Types Yaql.Naming Yaql.Gen.LazySpell
 
 def lazyNames (d : RDef) : List Name := (d.params.filter fun p => p.lazy && !p.hidden).map (·.name)
 def eagerNames (d : RDef) : List Name := (d.params.filter fun p => !p.lazy && !p.hidden).map (·.name)
@@ -78,6 +79,46 @@ def lazyFunctions : List Name :=
 
 theorem lazy_functions :
     sameSet ((registry.filter fun d => d.params.any fun p => p.lazy && !p.hidden).map (·.name)) lazyFunctions = true := by
+  decide +kernel
+
+/-! ### the keyword spelling of the lazily evaluated parameters (`Yaql/Gen/LazySpell.lean`: contexts of every
+naming convention, created in two orders in fresh interpreters) -/
+
+/-- the keyword spelling of a lazy parameter exists and is unambiguous -/
+def spellingOk (r : LazyRow) : Bool :=
+  r.star ||
+    (isKeyword r.keyword &&                                     -- `name => value` parses / `call()` lets it pass
+     !r.others.contains r.keyword &&                            -- no other parameter of the definition answers to it
+     r.keyword == keywordName r.conv r.declAlias r.param)       -- it is the documented alias: explicit, or the convention's
+
+/-- **every lazily evaluated parameter of the library can be passed by keyword, under every naming
+    convention**: its keyword name is a keyword, is the alias the convention promises for the declared
+    parameter (the explicit alias, else the translated python name), and differs from the keyword name of
+    every other parameter of the same definition (`*args` parameters - coalesce, switch, selectCase.. - are
+    reached positionally only) -/
+theorem lazy_keyword_spelling : lazyRows.all spellingOk = true := by
+  decide +kernel
+
+def samePairs (a b : List (Name × Name)) : Bool := a.all b.contains && b.all a.contains
+
+/-- the rows of the default convention are exactly the lazy parameters of the registry
+    (`Yaql/Gen/Registry.lean`, on which `lazy_params` / `lazy_functions` and the resolver ties are stated) -/
+theorem lazy_rows_cover :
+    samePairs ((lazyRows.filter fun r => r.conv == some .camel).map fun r => (r.regName, r.param))
+      (registry.flatMap fun d => (d.params.filter fun p => p.lazy && !p.hidden).map fun p => (d.name, p.name)) = true := by
+  decide +kernel
+
+/-- every lazy parameter is seen as such in contexts of EVERY convention (with the same declaration), and
+    the conventions really differ on the table: some lazy parameter has a keyword name that is not its
+    python name under camelCase, and is its python name under the PythonConvention and without one -/
+theorem lazy_rows_every_convention :
+    (lazyRows.all fun r => [some Conv.camel, some Conv.python, none].all fun c => lazyRows.any fun r' =>
+      r'.conv == c && r'.param == r.param && r'.declAlias == r.declAlias && r'.star == r.star &&
+        r'.others.length == r.others.length) = true ∧
+    lazyRows.any (fun r => r.conv == some .camel && !r.star && r.keyword != r.param) = true ∧
+    lazyRows.any (fun r => r.conv == some .python && !r.star && r.keyword == r.param && toCamel r.param != r.param) = true ∧
+    lazyRows.any (fun r => r.conv == none && !r.star && r.keyword == r.param && toCamel r.param != r.param) = true ∧
+    (lazyRows.filter fun r => !r.star).length ≥ 100 := by
   decide +kernel
 
 end Yaql.Props.C11Gen
